@@ -208,3 +208,118 @@ def loadMeta (fs : Fs) (name : Bytes) (ndbs : Nat) : Nat × Strategy :=
   | none => (ndbs, .newer)
 
 end Nun
+
+namespace Nun
+
+/-! ### The snapshot as a sequence of file-system operations (for crash points, C11)
+
+`snapshotOps` emits exactly the operations `storage_data_disk` performs on the files, in order,
+including the automatic flushes of its two `BufWriter`s (capacity 250). -/
+
+inductive FsOp
+  | create (p : Bytes)                       -- `open(O_CREAT)` of a missing file
+  | append (p : Bytes) (data : Bytes)        -- `write` on an `O_APPEND` descriptor
+  | pwrite (p : Bytes) (off : Nat) (data : Bytes)
+  | rename (a b : Bytes)
+  | unlink (p : Bytes)
+deriving DecidableEq, Repr
+
+def Fs.applyOp (fs : Fs) : FsOp → Fs
+  | .create p => if (fs.read p).isSome then fs else AL.put fs p []
+  | .append p d => fs.append p d
+  | .pwrite p off d => fs.pwrite p off d
+  | .rename a b =>
+    match fs.read a with
+    | some c => AL.put (AL.erase fs a) b c
+    | none => fs
+  | .unlink p => AL.erase fs p
+
+def Fs.applyOps (fs : Fs) (ops : List FsOp) : Fs := ops.foldl Fs.applyOp fs
+
+/-- `std::io::BufWriter` over an append-mode file -/
+structure BufW where
+  path : Bytes
+  cap : Nat
+  buf : Bytes
+deriving Repr
+
+def BufW.flush (w : BufW) : BufW × List FsOp :=
+  if w.buf = [] then (w, []) else ({ w with buf := [] }, [.append w.path w.buf])
+
+/-- `BufWriter::write`: flush first when the data does not fit in what is left; data at least as
+large as the whole buffer goes straight to the file -/
+def BufW.write (w : BufW) (data : Bytes) : BufW × List FsOp :=
+  if data.length < w.cap - w.buf.length then ({ w with buf := w.buf ++ data }, [])
+  else
+    let (w1, ops1) := if data.length > w.cap - w.buf.length then w.flush else (w, [])
+    if data.length ≥ w1.cap then (w1, ops1 ++ [.append w1.path data])
+    else ({ w1 with buf := w1.buf ++ data }, ops1)
+
+def BufW.writes (w : BufW) (datas : List Bytes) : BufW × List FsOp :=
+  datas.foldl (fun (st : BufW × List FsOp) d => let (w', ops) := st.1.write d; (w', st.2 ++ ops)) (w, [])
+
+def bufCap : Nat := 250
+
+structure TraceSt where
+  keys : BufW
+  values : BufW
+  ops : List FsOp
+  vaddr : Nat
+  kaddr : Nat
+
+/-- one iteration of the writer's loop, as file operations -/
+def traceKey (reclaim : Bool) (name : Bytes) (s : TraceSt) (k : Bytes) (e : Entry) : TraceSt :=
+  let valueParts : List Bytes := [le64 e.value.length, e.value, le32i 0]
+  let keyParts (va : Nat) : List Bytes := [le64 k.length, k, le32i e.version, le64 va]
+  let appendNew : TraceSt :=
+    let (vw, ops1) := s.values.writes valueParts
+    let (kw, ops2) := s.keys.writes (keyParts s.vaddr)
+    { keys := kw, values := vw, ops := s.ops ++ ops1 ++ ops2,
+      vaddr := s.vaddr + (8 + e.value.length + 4), kaddr := s.kaddr + keyRecSize k.length }
+  match e.state with
+  | .ok => if reclaim then appendNew else s
+  | .new => appendNew
+  | .updated =>
+    if !reclaim then
+      let (vw, ops1) := s.values.writes valueParts
+      let at0 := e.kaddr + keyRecSize k.length - 12
+      { s with values := vw, ops := s.ops ++ ops1 ++ [.pwrite (keysFile name) at0 (le32i e.version), .pwrite (keysFile name) (at0 + 4) (le64 s.vaddr)],
+               vaddr := s.vaddr + (8 + e.value.length + 4) }
+    else
+      let (vw, ops1) := s.values.writes valueParts
+      let (kw, ops2) := s.keys.writes (keyParts s.vaddr)
+      { keys := kw, values := vw, ops := s.ops ++ ops1 ++ ops2,
+        vaddr := s.vaddr + (8 + e.value.length + 4), kaddr := s.kaddr + keyRecSize k.length }
+  | .deleted =>
+    if !reclaim then
+      let at0 := e.kaddr + keyRecSize k.length - 12
+      { s with ops := s.ops ++ [.pwrite (keysFile name) at0 (le32i (-1)), .pwrite (keysFile name) (at0 + 4) (le64 0)] }
+    else s
+
+/-- the operations of `storage_data_disk` + `remove_backup_key_file` on `fs` -/
+def snapshotOps (db : Db) (fs : Fs) (reclaim : Bool) (order : List Bytes) : List FsOp :=
+  let todo := (db.map.filter fun (_, e) => e.state != .ok || reclaim).foldr (insertByIx order) []
+  let name := db.name
+  let kf := keysFile name; let vf := valuesFile name
+  let old := kf ++ b!".old"
+  let pre1 : List FsOp := if reclaim && (fs.read kf).isSome then [.rename kf old] else []
+  let fs1 := fs.applyOps pre1
+  let pre2 : List FsOp := if (fs1.read kf).isNone then [.create kf] else []
+  let fs2 := fs1.applyOps pre2
+  let pre3 : List FsOp := if reclaim && (fs2.read vf).isSome then [.rename vf (vf ++ b!".old"), .unlink (vf ++ b!".old")] else []
+  let fs3 := fs2.applyOps pre3
+  let pre4 : List FsOp := if (fs3.read vf).isNone then [.create vf] else []
+  let fs4 := fs3.applyOps pre4
+  let st : TraceSt := { keys := { path := kf, cap := bufCap, buf := [] }, values := { path := vf, cap := bufCap, buf := [] },
+                        ops := [], vaddr := fs4.size vf, kaddr := fs4.size kf }
+  let st := todo.foldl (fun s (k, e) => traceKey reclaim name s k e) st
+  let (_, kflush) := st.keys.flush
+  let (_, vflush) := st.values.flush
+  let mf := metaFile name
+  let metaOps : List FsOp := (if (fs.read mf).isNone then [.create mf] else []) ++
+    [.pwrite mf 0 (le64 db.id), .pwrite mf 8 (le32i (strategyCode db.strategy))]
+  let fsEnd := fs4.applyOps (st.ops ++ kflush ++ vflush ++ metaOps)
+  let post : List FsOp := if (fsEnd.read old).isSome then [.unlink old] else []
+  pre1 ++ pre2 ++ pre3 ++ pre4 ++ st.ops ++ kflush ++ vflush ++ metaOps ++ post
+
+end Nun
